@@ -510,6 +510,11 @@ Definition enter_scope (p : passage) (args : string) : M unit :=
     end
   else ret tt.
 
+(* push the parameter scope, run the body, pop the scope whether the body returns or raises *)
+Definition with_scope {A} (p : passage) (args : string) (body : M A) : M A :=
+  do _ <- enter_scope p args;
+  finally body (if has_scope p args then pop_scope else ret tt).
+
 Definition chain_output (o jo : output) : output :=
   mkOut (merge_content (o_content o) (o_content jo)) (o_choices jo) (o_pid jo)
         (o_render o ++ o_render jo)%list (o_input jo) None.
@@ -522,8 +527,7 @@ Fixpoint goto_rec (fuel : nat) (spec : string) (visited : list string) : M outpu
       match get_passage st pid with
       | None => raise ValueError
       | Some p =>
-          do _ <- enter_scope p args;
-          finally
+          with_scope p args
             (if str_in pid visited then raise RuntimeError else
              do _ <- set_cur pid;
              do s <- get;
@@ -538,7 +542,6 @@ Fixpoint goto_rec (fuel : nat) (spec : string) (visited : list string) : M outpu
                       end;
              do _ <- set_out o';
              ret o')
-            (if has_scope p args then pop_scope else ret tt)
       end
   end.
 
